@@ -398,6 +398,40 @@ def run(ctx):
         if bv is not None:
             ctx.violation('maxvol:many-swaps', '%s (%s matrix %dx%d, %d swaps)' % (bv, kind_, n_, r_, nsw_), case={'n': n_, 'r': r_, 'kind': kind_})
     ctx.notes['largest_number_of_swaps_in_one_call'] = most
+    # --- every iteration limit of the initial maxvol, on matrices whose pivoted-LU start has large coefficients (Wilkinson
+    #     growth inside each diagonal block; conditioning ~1e4): with a small limit the greedy stage of maxvol_rect starts from
+    #     rows of large coefficient norm; the contract of the result does not depend on the limit
+    def growth_block(nb, rb, g):
+        L = g.uniform(-0.9, 0.9, size=(nb, rb))
+        L[:rb] = np.eye(rb) - 0.95 * np.tril(np.ones((rb, rb)), -1)
+        return L @ (np.eye(rb) + 0.1 * np.triu(g.uniform(-1, 1, size=(rb, rb)), 1))
+    for (mb, nb, rb, k0s) in ((1, 25, 9, (0, 1, 2, 10)), (3, 20, 10, (1, 2, 10)), (12, 14, 9, (10, 100))) if quick else \
+            ((1, 25, 9, (0, 1, 2, 3, 10)), (3, 20, 10, (0, 1, 2, 5, 10)), (12, 14, 9, (1, 10, 100)), (2, 40, 14, (1, 2, 10)), (6, 12, 8, (2, 10))):
+        for sd in range(2 if quick else 6):
+            g = np.random.default_rng(1000 * sd + ctx.seed)
+            Ag = np.zeros((mb * nb, mb * rb))
+            for bb in range(mb):
+                Ag[bb * nb:(bb + 1) * nb, bb * rb:(bb + 1) * rb] = growth_block(nb, rb, g)
+            ng, rg = Ag.shape
+            for k0 in k0s:
+                for e_ in (1.05, 2.):
+                    for (drmin, drmax) in ((0, None), (2, 20)):
+                        ctx.case(key=('rect-growth', mb, nb, rb, sd, k0, e_, drmin, drmax), nontrivial=True)
+                        keepA = Ag.copy()
+                        try:
+                            Ig, Bg = teneva.maxvol_rect(Ag, e_, drmin, drmax, 1.05, k0)
+                        except Exception as ex:
+                            ctx.violation('maxvol_rect:raises', 'maxvol_rect on a %dx%d block matrix (k0=%d, e=%g) raised %s: %s' % (ng, rg, k0, e_, type(ex).__name__, ex))
+                            continue
+                        hi = ng if drmax is None else min(ng, rg + drmax)
+                        msg = blackbox_verdict(Ag, e_, k0, (e_, drmin, hi - rg), Ig, Bg)
+                        if msg is None and len(Ig) < hi:
+                            nrm = float(np.linalg.norm(Bg, axis=1).max())
+                            if nrm > e_ * (1 + 1e-9):
+                                msg = 'stopped with %d < %d rows although a row of B has Euclidean norm %.4f > e = %g' % (len(Ig), hi, nrm, e_)
+                        if msg is None and not np.array_equal(Ag, keepA):
+                            msg = 'the argument was modified'
+                        ctx.check(msg is None, 'maxvol_rect:contract', 'maxvol_rect(%dx%d block matrix with LU growth, e=%g, dr_min=%s, dr_max=%s, k0=%d): %s' % (ng, rg, e_, drmin, drmax, k0, msg))
     # --- spec -> code: the converged result must be one of the locally optimal sets TLC found
     res = tlc.run('MC_Maxvol', cfg='MC_Maxvol_e.cfg', workers=8, timeout=3000)
     ctx.add_tlc(res, 'locally optimal index sets of all 3x2 matrices with entries {-1,0,1} (emitted)')
